@@ -323,51 +323,66 @@ func codeFenceChar(source []byte, block *commonmark.Block) byte {
 func codeFenceLength(source []byte, block *commonmark.Block) int {
 	fence := codeFenceChar(source, block)
 	minFence := 3 - 1
-	state := -1 // -1 = start of line, 0 = not a fence-like line
+
+	// Look at every line of the content for something
+	// that would be read as a closing code fence:
+	// fewer than four columns of indentation,
+	// a run of fence characters, then nothing but spaces and tabs.
+	const (
+		atLineStart = iota
+		inFenceRun
+		afterFenceRun
+		notFence
+	)
+	state := atLineStart
 	indent := 0
+	run := 0
+	endLine := func() {
+		if (state == inFenceRun || state == afterFenceRun) && run > minFence {
+			minFence = run
+		}
+		state = atLineStart
+		indent = 0
+		run = 0
+	}
 	for i, n := 0, block.ChildCount(); i < n; i++ {
 		inl := block.Child(i).Inline()
 		switch inl.Kind() {
 		case commonmark.TextKind:
-			s := spanSlice(source, inl.Span())
-			for _, c := range s {
-				switch c {
-				case ' ':
-					if state == -1 {
-						indent++
-						if indent >= codeBlockIndentLimit {
-							state = 0
-						}
+			for _, c := range spanSlice(source, inl.Span()) {
+				switch {
+				case c == '\n' || c == '\r':
+					endLine()
+				case state == notFence:
+				case c == ' ' && state == atLineStart:
+					indent++
+					if indent >= codeBlockIndentLimit {
+						state = notFence
 					}
-				case '\n':
-					if state > minFence {
-						minFence = state
-					}
-					state = -1
-				case fence:
-					if state < 0 {
-						state = 1
-					} else if state > 0 {
-						state++
-					}
+				case (c == ' ' || c == '\t') && (state == inFenceRun || state == afterFenceRun):
+					state = afterFenceRun
+				case c == fence && (state == atLineStart || state == inFenceRun):
+					state = inFenceRun
+					run++
 				default:
-					state = 0
+					state = notFence
 				}
 			}
 		case commonmark.SoftLineBreakKind, commonmark.HardLineBreakKind:
-			if state > minFence {
-				minFence = state
-			}
-			state = -1
+			endLine()
 		case commonmark.IndentKind:
-			if state == -1 {
+			switch state {
+			case atLineStart:
 				indent += inl.IndentWidth()
 				if indent >= codeBlockIndentLimit {
-					state = 0
+					state = notFence
 				}
+			case inFenceRun:
+				state = afterFenceRun
 			}
 		}
 	}
+	endLine()
 	return minFence + 1
 }
 
